@@ -7,6 +7,8 @@
 (*   InsLocked  needs the shard free (no writer, no reader)                   *)
 (*   RetLocked / DumpLocked need no writer                                    *)
 (*   RetDone    observes exactly the last version inserted for its key        *)
+(*   AnnReturn  a processed announcement was inserted by its goroutine, or was  *)
+(*              found in the cache unchanged                                  *)
 (*   RetReturn  what the lookup returned to its caller is what it observed    *)
 (*   DumpFile   the file loads back as exactly the shard contents at the      *)
 (*              moment each shard was locked by that dump                     *)
@@ -16,44 +18,54 @@ NShards == 32
 CanWrite(w, r) == w = 0 /\ r = {}
 CanRead(w) == w = 0
 
-VARIABLES l, wr, rd, map, lastobs, snap
-tvars == <<l, wr, rd, map, lastobs, snap>>
+VARIABLES l, wr, rd, map, lastobs, snap,
+          ann     \* per goroutine: the version it is announcing and whether the cache has held it since the call
+tvars == <<l, wr, rd, map, lastobs, snap, ann>>
 Ev == Trace[l]
 Keys == {Trace[i].k : i \in {j \in 1..Len(Trace) : Trace[j].k # ""}}
 TraceInit == /\ l = 1 /\ wr = [s \in 1..NShards |-> 0] /\ rd = [s \in 1..NShards |-> {}]
              /\ map = [k \in Keys |-> [s |-> 0, v |-> 0]]       \* key -> shard it lives in, version (0 = absent)
              /\ lastobs = [g \in {} |-> 0] /\ snap = [s \in 1..NShards |-> <<>>]
+             /\ ann = [g \in {} |-> [v |-> 0, ok |-> TRUE]]
              /\ TLCSet(1, 1)
 Is(e) == l <= Len(Trace) /\ Ev.ev = e /\ l' = l + 1
 Put(f, g, v) == [x \in DOMAIN f \cup {g} |-> IF x = g THEN v ELSE f[x]]
 
 InsLocked == /\ Is("InsLocked") /\ CanWrite(wr[Ev.s], rd[Ev.s])
-             /\ wr' = [wr EXCEPT ![Ev.s] = Ev.g] /\ UNCHANGED <<rd, map, lastobs, snap>>
+             /\ wr' = [wr EXCEPT ![Ev.s] = Ev.g] /\ UNCHANGED <<rd, map, lastobs, snap, ann>>
 InsDone == /\ Is("InsDone") /\ wr[Ev.s] = Ev.g /\ Ev.v > 0
            /\ map' = [map EXCEPT ![Ev.k] = [s |-> Ev.s, v |-> Ev.v]]
+           /\ ann' = IF Ev.g \in DOMAIN ann /\ ann[Ev.g].v = Ev.v THEN [ann EXCEPT ![Ev.g].ok = TRUE] ELSE ann
            /\ wr' = [wr EXCEPT ![Ev.s] = 0] /\ UNCHANGED <<rd, lastobs, snap>>
 RetLocked == /\ Is("RetLocked") /\ CanRead(wr[Ev.s])
-             /\ rd' = [rd EXCEPT ![Ev.s] = @ \cup {Ev.g}] /\ UNCHANGED <<wr, map, lastobs, snap>>
+             /\ rd' = [rd EXCEPT ![Ev.s] = @ \cup {Ev.g}] /\ UNCHANGED <<wr, map, lastobs, snap, ann>>
 RetDone == /\ Is("RetDone") /\ Ev.g \in rd[Ev.s]
            /\ Ev.v = map[Ev.k].v
            /\ rd' = [rd EXCEPT ![Ev.s] = @ \ {Ev.g}]
+           /\ ann' = IF Ev.g \in DOMAIN ann /\ ann[Ev.g].v = Ev.v THEN [ann EXCEPT ![Ev.g].ok = TRUE] ELSE ann
            /\ lastobs' = Put(lastobs, Ev.g, Ev.v) /\ UNCHANGED <<wr, map, snap>>
 RetReturn == /\ Is("RetReturn") /\ Ev.g \in DOMAIN lastobs /\ lastobs[Ev.g] = Ev.v
-             /\ UNCHANGED <<wr, rd, map, lastobs, snap>>
+             /\ UNCHANGED <<wr, rd, map, lastobs, snap, ann>>
+(* an announcement that has been processed is in force: between its call and its return the announcing goroutine *)
+(* inserted that version, or found it in the cache already (a repeated, unchanged template need not be written)  *)
+AnnCall == /\ Is("AnnCall") /\ ann' = Put(ann, Ev.g, [v |-> Ev.v, ok |-> FALSE])
+           /\ UNCHANGED <<wr, rd, map, lastobs, snap>>
+AnnReturn == /\ Is("AnnReturn") /\ Ev.g \in DOMAIN ann /\ ann[Ev.g].v = Ev.v /\ ann[Ev.g].ok
+             /\ UNCHANGED <<wr, rd, map, lastobs, snap, ann>>
 (* contents of shard s: the set of <<key, version>> living there *)
 ShardContent(s) == {<<k, map[k].v>> : k \in {x \in Keys : map[x].s = s /\ map[x].v > 0}}
 DumpLocked == /\ Is("DumpLocked") /\ CanRead(wr[Ev.s])
               /\ rd' = [rd EXCEPT ![Ev.s] = @ \cup {Ev.g}]
               /\ snap' = [snap EXCEPT ![Ev.s] = <<ShardContent(Ev.s)>>]
-              /\ UNCHANGED <<wr, map, lastobs>>
+              /\ UNCHANGED <<wr, map, lastobs, ann>>
 DumpDone == /\ Is("DumpDone") /\ Ev.g \in rd[Ev.s]
-            /\ rd' = [rd EXCEPT ![Ev.s] = @ \ {Ev.g}] /\ UNCHANGED <<wr, map, lastobs, snap>>
+            /\ rd' = [rd EXCEPT ![Ev.s] = @ \ {Ev.g}] /\ UNCHANGED <<wr, map, lastobs, snap, ann>>
 KeyName(n) == "k" \o ToString(n)
 Items(s) == {<<KeyName(Ev.items[i][2]), Ev.items[i][3]>> : i \in {j \in 1..Len(Ev.items) : Ev.items[j][1] = s}}
 DumpFile == /\ Is("DumpFile")
             /\ \A s \in 1..NShards : snap[s] # <<>> /\ Items(s) = snap[s][1]
-            /\ snap' = [s \in 1..NShards |-> <<>>] /\ UNCHANGED <<wr, rd, map, lastobs>>
-TraceNext == InsLocked \/ InsDone \/ RetLocked \/ RetDone \/ RetReturn \/ DumpLocked \/ DumpDone \/ DumpFile
+            /\ snap' = [s \in 1..NShards |-> <<>>] /\ UNCHANGED <<wr, rd, map, lastobs, ann>>
+TraceNext == AnnCall \/ AnnReturn \/ InsLocked \/ InsDone \/ RetLocked \/ RetDone \/ RetReturn \/ DumpLocked \/ DumpDone \/ DumpFile
 TraceSpec == TraceInit /\ [][TraceNext]_tvars
 Mark == TLCSet(1, IF TLCGet(1) < l THEN l ELSE TLCGet(1))
 Accepted == \/ TLCGet(1) = Len(Trace) + 1
